@@ -446,4 +446,28 @@ def runCalls [LE Q] [DecidableLE Q] [LT S] [DecidableLT S] (cfg : Cfg P Prm) (o 
   | [], st => st
   | c :: cs, st => runCalls cfg o cs (optimize cfg o c.conv c.maxIter c.sched st).st
 
+/-! ### an optimizer that grows between calls (round 6c) -/
+
+/-- one phase: the configuration at the time of the call (clamps and links added so far; `GridBase.clamps` walks the
+    junctions, so a new clamp may renumber the others), how the list of held parameters is re-indexed for it, the call.
+    `add_clamp` / `add_link` only register (model `addClamp` / `addLink` act on `Reg`): the points are untouched. -/
+structure Phase (P Prm Q S : Type) where
+  cfg : Cfg P Prm
+  reprm : List Prm → List Prm
+  call : Call Prm Q S
+
+def Phase.enter (ph : Phase P Prm Q S) (st : St P Prm) : St P Prm := { pts := st.pts, prm := ph.reprm st.prm }
+
+def runPhases [LE Q] [DecidableLE Q] [LT S] [DecidableLT S] (o : Oracles P Q) :
+    List (Phase P Prm Q S) → St P Prm → St P Prm
+  | [], st => st
+  | ph :: rest, st => runPhases o rest (optimize ph.cfg o ph.call.conv ph.call.maxIter ph.call.sched (ph.enter st)).st
+
+/-- every phase is entered in a rest state of a well-formed configuration (what exact clamp constructors give) -/
+def PhasesOK [LE Q] [DecidableLE Q] [LT S] [DecidableLT S] (n : Nat) (o : Oracles P Q) :
+    List (Phase P Prm Q S) → St P Prm → Prop
+  | [], _ => True
+  | ph :: rest, st => WF ph.cfg n ∧ Rest ph.cfg n (ph.enter st) ∧
+      PhasesOK n o rest (optimize ph.cfg o ph.call.conv ph.call.maxIter ph.call.sched (ph.enter st)).st
+
 end CBV.C13
